@@ -262,6 +262,7 @@ def run_shard(rec, seed, shard, tier):
     warnings.filterwarnings("ignore")
     if shard.get("i", 1) % 2 == 1:
         real.hostile_prelude(rec)  # a past: nothing the check decides may depend on it
+        real.toplevel_probes(rec, None, "after the hostile prelude")
     gs = groups()
     for idx, (mods, base, doc) in enumerate(gs):
         if idx % NSHARDS == shard["i"]:
